@@ -1082,11 +1082,13 @@ def family(prop, tier):
                         expect_outcomes=['Conflict', 'SuccessMessage', 'CRASHED']))
         if tier == 'thorough':
             out.append(_cfg('rec:skip:F:resolved', 'recover skip-queue: conflict, resolved by hand, then merged', F, [P1], 'skip',
-                            scen_recover([EV1, ('resolve', 1, 'development/5.1')], [EV1, ('eval_queues',)]), which=W))
+                            scen_recover([EV1, ('resolve', 1, 'development/5.1')], [EV1, ('eval_queues',)]), which=W,
+                            green=True))      # (with symbolic builds this one did not finish in 20 minutes)
             out.append(_cfg('rec:queue:A', 'recover queue 3 targets', A, [P1], 'queue',
                             scen_recover([], [EV1, ('eval_queues',)]), which=W))
             out.append(_cfg('rec:queue:F:2prs', 'recover queue, two PRs', F, [P1, P2b], 'queue',
-                            scen_recover([EV1], [('eval_pr', 2), ('eval_queues',)]), which=W))
+                            scen_recover([EV1], [('eval_pr', 2), ('eval_queues',)]), which=W,
+                            no_conflicts=True))    # (with symbolic conflicts: more than 10 minutes)
             out.append(_cfg('rec:noqueue:F:octopus', 'recover noqueue, octopus', F, [P1], 'noqueue',
                             scen_recover([], [EV1]), which=W, no_octopus=False))
     elif prop == 'C19':
